@@ -198,7 +198,7 @@ PROPS = {
         level_note='Trusts the harness expansion of ranges (same arithmetic as the library: start + i*delta). Lossy float printing is out of scope (lossless mode only).',
         technique='round-trip law monitor (print/check/scan) under AddressSanitizer/UBSan',
         stages=[dict(harness='c10', variant='asan', quick=30000, thorough=2000000,
-                     need=['printed.lists', 'printed.messages', 'scanned', 'roundtrips_ok', 'printed.with_linebreak', 'printed.with_range_syntax'])],
+                     need=['printed.lists', 'printed.messages', 'scanned', 'roundtrips_ok', 'printed.with_linebreak', 'printed.with_range_syntax', 'gen.adjacent_progressions_at_start', 'gen.unit_progression_after_array', 'gen.large_step', 'gen.large_step_64bit'])],
         rule='case = one argument list + print options (every 4th as a whole message); distinct = hash of the rendered list and options; '
              'non-trivial = every case.',
         exhaustive=dict(quick=False, thorough=False),
